@@ -21,6 +21,7 @@ RULE = ("G-sim traces with a small operator vocabulary (names repeat at several 
 ASSUMPTIONS = ["well-formed, K1-free traces; no autograd thread (backward re-parenting changes depths: C13)",
                "device activities beneath one instance have distinct start times (queries whose instances contain ties are skipped, counted)",
                "matching = the operator name contains the query string (documented)"]
+FLOAT_KEYS = ["files"]          # fractional-time-unit workload class (hv/shard.py)
 PLAN = {"quick": {"shards": 16, "cases": 320, "timeout": 900}, "thorough": {"shards": 16, "cases": 4000, "timeout": 3400}}
 FLOORS = {"quick": {"distinct_nontrivial": 80, "queries": 450, "patterns_judged": 600, "name_at_several_depths": 100, "instance_below_threshold": 150,
                     "second_or_later_query_on_same_object": 250, "empty_results": 30, "traces_gt_127_events": 60,
